@@ -44,6 +44,16 @@ CLAIMED = {
         'under a move of the reference surface. A genuine defect (wrong sign passed by Panel.calc_kM) was repaired (fix: ca9efb9).',
    note='As C02; LAPACK eigh trusted for the invariance predicate.',
    technique='Lean 4 proof over regenerated model + translation validation + oracle', ref='4/C04'),
+ 'C14': dict(
+   text='17 theorems between the REGENERATED kernel models: conical entries at sin(alpha)=0, cos(alpha)=1 equal the cylindrical '
+        'entries section by section (k0, kG0, kM) and are additive in the x-integrals (so equal-radius sections telescope); '
+        'cylindrical = plate + X/r + Y/r^2 exactly (kG0, kM identical); w-only model = w-block of the full plate (k0, kG0, kA, cA); '
+        'exchange of x and y gives permutation-congruent k0, kG0, kM; geometric similarity scales k0 by e*s, kG0 by 1, kM by q*s^3. '
+        'Implementation arm: each pair of descriptions run through the public API (matrices entry-wise, eigenvalues via LAPACK), '
+        'incl. numerically integrated vs analytic matrices at the undeformed state.',
+   note='As C02; eigenvalue statements follow from the matrix congruences (not formalised as spectra); numeric-vs-analytic kernel '
+        'pair is exploration-level until the numerical kernels are translated.',
+   technique='Lean 4 proof over regenerated models + pairwise implementation comparison', ref='4/C14'),
  'C19': dict(
    text='Regenerated Lean models of fkAx/fkAy/fcA (plate, plate_w, cpanel); 14 theorems: each entry equals the by-parts form '
         '-beta*Int(dw_A/dflow w_B) - gamma*Int(w_A w_B) (gamma only in the cylindrical x-flow kernel) resp. -aeromu*Int(w_A w_B), on w only; '
